@@ -665,6 +665,93 @@ def param_deps(fnode, atom=None, control=True, envs=None):
     return out
 
 
+def view_writes(fnode, root_attrs=("img", "rmsimg", "bkgimg", "dcurve")):
+    """In-place writes (subscript stores, augmented assignments, fill /
+    sort / put) through a name that may be a VIEW of one of the shared image
+    arrays (<obj>.img ...): the array itself, or a basic slice of it, not
+    passed through copy() / deepcopy() / np.array() / astype().
+    Returns [(statement, alias name, what it is a view of)]."""
+    def is_root(e):
+        return isinstance(e, ast.Attribute) and e.attr in root_attrs
+
+    def slice_index(sl, depth=0):
+        """is the index basic slicing (-> view)?"""
+        if isinstance(sl, ast.Slice):
+            return True
+        if isinstance(sl, ast.Tuple):
+            return bool(sl.elts) and all(
+                isinstance(e, (ast.Slice, ast.Constant)) or
+                (isinstance(e, ast.Call) and norm(e.func) == "slice") or
+                (isinstance(e, ast.Name) and slice_index(e, depth + 1))
+                for e in sl.elts) and any(
+                    not isinstance(e, ast.Constant) for e in sl.elts)
+        if isinstance(sl, ast.Call) and norm(sl.func) == "slice":
+            return True
+        if isinstance(sl, ast.Name) and depth < 3:
+            defs = [d.value for d in walk_no_nested(fnode)
+                    if isinstance(d, ast.Assign) and len(d.targets) == 1 and
+                    norm(d.targets[0]) == sl.id]
+            return len(defs) == 1 and slice_index(defs[0], depth + 1)
+        return False
+    alias = {}           # name -> description of what it views
+    stmts = sorted((x for x in walk_no_nested(fnode)
+                    if isinstance(x, (ast.Assign, ast.AugAssign, ast.Expr))),
+                   key=lambda x: (x.lineno, x.col_offset))
+
+    def viewed(e):
+        if is_root(e):
+            return norm(e)
+        if isinstance(e, ast.Name) and e.id in alias:
+            return alias[e.id]
+        if isinstance(e, ast.Subscript) and slice_index(e.slice):
+            return viewed(e.value)
+        if isinstance(e, ast.Attribute) and e.attr in ("T", "real"):
+            return viewed(e.value)
+        if isinstance(e, ast.Call) and isinstance(e.func, ast.Attribute) and \
+                e.func.attr in ("view", "reshape", "ravel", "squeeze",
+                                "transpose"):
+            return viewed(e.func.value)
+        if isinstance(e, ast.Call) and norm(e.func) in (
+                "np.asarray", "np.squeeze", "np.ravel", "np.atleast_2d"
+        ) and e.args:
+            return viewed(e.args[0])
+        return None
+    out = []
+    for st in stmts:
+        if isinstance(st, ast.Assign):
+            for t in st.targets:
+                if isinstance(t, ast.Subscript):
+                    b = t.value
+                    v = viewed(b) if not is_root(b) else None
+                    if v is not None and isinstance(b, ast.Name):
+                        out.append((st, b.id, v))
+            v = viewed(st.value)
+            for t in st.targets:
+                if isinstance(t, ast.Name):
+                    if v is not None:
+                        alias[t.id] = v
+                    else:
+                        alias.pop(t.id, None)
+                elif isinstance(t, (ast.Tuple, ast.List)):
+                    for el in t.elts:
+                        if isinstance(el, ast.Name):
+                            alias.pop(el.id, None)
+        elif isinstance(st, ast.AugAssign):
+            b = st.target
+            while isinstance(b, ast.Subscript):
+                b = b.value
+            if isinstance(b, ast.Name) and b.id in alias:
+                out.append((st, b.id, alias[b.id]))
+        else:
+            c = st.value
+            if isinstance(c, ast.Call) and isinstance(c.func, ast.Attribute) \
+                    and c.func.attr in ("fill", "sort", "put", "itemset") and \
+                    isinstance(c.func.value, ast.Name) and \
+                    c.func.value.id in alias:
+                out.append((st, c.func.value.id, alias[c.func.value.id]))
+    return out
+
+
 def as_update(stmt):
     """(target text, operator class, operand text) of  t op= v  or of the
     equivalent  t = t op v  (also  t = v op t  for + and *); else None"""
